@@ -97,7 +97,19 @@ class SetupPeer:
         self.malformed = None
         self.requests = 0
 
+    STRANGERS = [(0x13, b"\x00\x00\x00\x10"), (0x80, bytes(range(200)) + bytes(100)), (0xFE, b""), (0x0B, b"\x1e")]
+
     def respond(self, items) -> bytes:
+        raw = self._respond(items)
+        sg = self.case.get("stranger")
+        if sg:
+            # a well-formed item of a type this step does not know (Flags, a vendor item of 300 bytes in two fragments, RetryDelay ...), in
+            # front of the reply - before a value that spans two fragments - or behind it: to be ignored
+            extra = tlv_enc([self.STRANGERS[sg[0] % len(self.STRANGERS)]])
+            raw = extra + raw if sg[1] % 2 == 0 else raw + extra
+        return raw
+
+    def _respond(self, items) -> bytes:
         self.requests += 1
         st_ = dict(items).get(T_STATE)
         if st_ == b"\x01":
@@ -360,6 +372,22 @@ def enum_mfi(tier):
         for tr in ("ip", "ble", "coap"):
             yield {"k": SEED * 15487469 + 10 + i, "code": "333-22-111", "acc_id": "AA:BB:CC:DD:EE:FF", "ios_id": "ios-mfi", "transport": tr, "with_auth": True, "salt_zeros": 0,
                    "fault": ["none"], "mfi": mfi}
+
+
+def enum_strangers(tier):
+    """Honest exchanges (and two breaking ones) whose replies carry an item the step does not know, in front of or behind the reply's own items."""
+    i = 0
+    for sg in ([0, 0], [0, 1], [1, 0], [1, 1], [2, 0], [3, 0], [3, 1]):
+        for fault in (["none"], ["m4-flip", 3], ["m2-reorder", 0]):
+            for dec_ in ("ip", "ble"):
+                i += 1
+                yield {"k": SEED * 32452843 + i, "code": "123-45-%03d" % i, "acc_id": "AA:BB:CC:DD:EE:FF", "ios_id": "ios-stranger", "decode": dec_, "with_auth": bool(i % 2),
+                       "salt_zeros": 0, "fault": fault, "stranger": sg}
+            if fault == ["none"]:
+                for tr in ("ip", "ble", "coap"):
+                    i += 1
+                    yield {"k": SEED * 32452843 + i, "code": "123-45-%03d" % i, "acc_id": "AA:BB:CC:DD:EE:FF", "ios_id": "ios-stranger", "transport": tr, "with_auth": bool(i % 2),
+                           "salt_zeros": 0, "fault": fault, "stranger": sg}
 
 
 def run_mfi(case, R):
@@ -685,6 +713,8 @@ def cases(draw):
         case["mfi"] = draw(st.sampled_from(["before", "after"]))
     if draw(st.integers(0, 11)) == 0:      # an identifier that is not valid UTF-8
         case["acc_id_hex"] = draw(st.sampled_from(["4143432dfe", "4143432dff", "ff", "c3", "41c328", "e282", "f0288c28"]))
+    if draw(st.integers(0, 4)) == 0:
+        case["stranger"] = [draw(st.integers(0, 3)), draw(st.integers(0, 1))]
     name = draw(st.sampled_from(FAULTS + ["none"] * 3))
     bit = draw(st.integers(0, 5000))
     if name == "m2-flip":
@@ -794,6 +824,9 @@ SPEC = Property(
         Layer("generated", run_case, strategy=cases, n={"quick": 2400, "thorough": 40000}, min_nontrivial=300),
         Layer("non-text-identifiers", run_case, enumerate=enum_ids, exhaustive=True, space="10 accessory identifiers that are not valid UTF-8 (or contain NUL) x {ip, ble}: refused, or returned exactly"),
         Layer("mfi-proof-in-m4", run_mfi, enumerate=enum_mfi, exhaustive=True, space="honest Pair-Setup-with-Auth exchanges whose M4 carries an MFi proof before / after the SRP proof; generator level x {ip, ble} and end to end x 3 transports"),
+        Layer("unknown-items", lambda case, R: (R.cls("stranger"), (run_e2e if "transport" in case else run_case)(case, R)) and None, enumerate=enum_strangers, exhaustive=True,
+              space="7 placements of an item the step does not know (Flags, 300-byte vendor item, empty item, RetryDelay; in front of / behind every reply) x {honest, flipped proof, reordered M2} x "
+                    "{ip, ble decode}; honest ones also end to end on the three transports", min_nontrivial=20),
         Layer("tape-replay", run_tape, enumerate=enum_tape, exhaustive=True,
               space="an honest pair-setup recorded, then its M2/M4/M6 replayed to a second pair-setup of the same process; SRP public values of the two exchanges distinct", min_nontrivial=4),
         Layer("leading-zero-exchanges", run_corpus, enumerate=enum_corpus, exhaustive=True,
